@@ -446,6 +446,16 @@ def L5(tier):
                                 and tgt not in ancestors(par, other):
                             yield Scenario(sched, bal, A, mk_tasks(par, attrs), il, ext=[(50, dict(eattrs))],
                                            ext_links=[(('x', tgt), ('e', 0))], layer='L5'), None
+    # custom attributes whose values are not plain data: an object that cannot be copied (a handle with a lock), a generator, a
+    # reference to another task of the plan (here: the last task of a 40-task chain of dependencies)
+    for sched in ('fwd', 'bwd'):
+        A = S if sched == 'fwd' else S + 60 * DAY
+        for special in ('@handle', '@generator', '@task1', '@task39'):
+            n = 40 if special == '@task39' else 3
+            attrs = {i: {'estimate': 4, 'resource': 'A'} for i in range(n)}
+            attrs[0]['see_also'] = special
+            links = [(i, i + 1) for i in range(n - 1)]
+            yield Scenario(sched, True, A, mk_tasks((None,) * n, attrs), links, layer='L5'), None
     # two broken external links whose ids cannot be compared with each other (diagnosis must still be a RuntimeError)
     for sched in ('fwd', 'bwd'):
         A = S if sched == 'fwd' else S + 21 * DAY
@@ -633,11 +643,33 @@ def L2n(tier, scheds=('fwd', 'bwd')):
                 continue
             for sched in scheds:
                 A = MON if sched == 'fwd' else MON + 21 * DAY
-                noise = dict(SUMMARY_NOISE) if sched == 'fwd' else {'estimate': 99, 'spent': 7, 'start': A - 3 * DAY, 'end': A + 30 * DAY}
-                for rpat in ('A', 'each'):
-                    attrs = {i: {'estimate': 4 + 4 * (k % 2), 'resource': 'A' if rpat == 'A' else 'R%d' % i} for k, i in enumerate(lv)}
-                    for i in range(n):
-                        if i not in lv:
-                            attrs[i] = dict(noise)
-                    for bal in (True, False):
-                        yield Scenario(sched, bal, A, mk_tasks(par, attrs), [], clock=MON - 30 * DAY if sched == 'fwd' else None, layer='L2n')
+                noise0 = dict(SUMMARY_NOISE) if sched == 'fwd' else {'estimate': 99, 'spent': 7, 'start': A - 3 * DAY, 'end': A + 30 * DAY}
+                # second variant: a single placeholder date typed into both date fields (start == end)
+                same = MON - 40 * DAY if sched == 'fwd' else A - 3 * DAY
+                for noise, rpat in ((noise0, 'A'), (noise0, 'each'), ({'estimate': 5, 'spent': 1, 'start': same, 'end': same}, 'A')):
+                    if True:
+                        attrs = {i: {'estimate': 4 + 4 * (k % 2), 'resource': 'A' if rpat == 'A' else 'R%d' % i} for k, i in enumerate(lv)}
+                        for i in range(n):
+                            if i not in lv:
+                                attrs[i] = dict(noise)
+                        for bal in (True, False):
+                            yield Scenario(sched, bal, A, mk_tasks(par, attrs), [], clock=MON - 30 * DAY if sched == 'fwd' else None, layer='L2n')
+
+
+def L7m(tier, scheds=('fwd', 'bwd')):
+    """Instants with microseconds meet dated calendars: a task on a 7-units-a-day resource (its end / start is midnight plus a
+    share of a day that is not a whole number of seconds) linked with a task on a resource whose capacity comes from a dated
+    calendar (dated days only, weekly minus holidays, weekly plus an extra Saturday); also a project start / deadline that
+    carries microseconds. (Layer name starts with L7: decimal tolerances.)"""
+    for sched in scheds:
+        for micro in (False, True):
+            A0 = MON if sched == 'fwd' else MON + 21 * DAY
+            A = A0 + (H9 + timedelta(microseconds=250) if micro else timedelta(0))
+            for calb in ('direct', 'holidays', 'extra_sat'):
+                for e1 in (3, 12, 10):
+                    for e2 in (4, 10):
+                        for links in (((0, 1),), ((1, 0),), ()):
+                            attrs = {0: {'estimate': e1, 'resource': 'A'}, 1: {'estimate': e2, 'resource': 'B'}}
+                            for bal in (True, False):
+                                yield Scenario(sched, bal, A, mk_tasks((None, None), attrs), list(links),
+                                               cals={'A': 'wk7', 'B': calb}, layer='L7m')
